@@ -262,9 +262,9 @@ Lemma yields_bind {A B} toks (P : A -> Prop) (Q : B -> Prop) (x : res (A * pst))
   yields toks Q (bind x f).
 Proof.
   intros Hw Hx Hf. destruct x as [[a p']| |]; cbn [bind]; try exact I.
-  destruct p' as [toks' te]. cbn [yields] in Hx. destruct Hx as [Pa Hs].
-  specialize (Hf a (toks', te) Pa Hs (is_suffix_Forall _ _ _ Hs Hw)). cbn [fst] in Hf.
-  revert Hf. generalize (f (a, (toks', te))). intros y Hy.
+  specialize (Hf a p'). revert Hf. generalize (f (a, p')). intros y Hy.
+  destruct p' as [toks' te]. cbn [yields fst] in *. destruct Hx as [Pa Hs].
+  specialize (Hy Pa Hs (is_suffix_Forall _ _ _ Hs Hw)).
   destruct y as [[b [toks2 te2]]| |]; cbn [yields] in *; try exact I.
   destruct Hy as [Qb Hs2]. split; [exact Qb|eapply is_suffix_trans; eassumption].
 Qed.
@@ -278,7 +278,9 @@ Ltac yields_tac :=
               | apply expect_lit_or_label_yields; assumption ]
       | let a := fresh "a" in let p' := fresh "p'" in
         intros a p' ? ? ?; destruct p' as [? ?]; cbn [fst] in * ]
-    | (cbn [yields]; split; [cbn [stmt_ok]; intuition; try (apply check_range_off6; tauto) | apply is_suffix_refl]) ].
+    | (cbn [yields]; split; [cbn [stmt_ok];
+         repeat match goal with x : imm_or_reg |- _ => destruct x; cbn [ior_ok] in * end;
+         intuition; try (apply check_range_off6; tauto) | apply is_suffix_refl]) ].
 
 Lemma parse_instr_yields sym line k p srclen : Forall tok_wf (fst p) -> kind_wf (KInstr k) ->
   yields (fst p) stmt_ok (parse_instr sym line k p srclen).
@@ -295,4 +297,217 @@ Proof.
   eapply yields_bind; [assumption|apply expect_lit_yields; assumption|].
   intros v p' [Hv Hc] Hs Hw'. destruct p' as [? ?]. cbn. split; [|apply is_suffix_refl].
   apply N.mod_lt. discriminate.
+Qed.
+
+Definition ast_ok (ls : list asm_line) : Prop := Forall (fun ln => stmt_ok (al_stmt ln)) ls.
+
+Definition orig_ok (o : option N) : Prop := match o with Some v => v < 65536 | None => True end.
+
+Definition parse_ok (r : res (air * symtab)) : Prop :=
+  match r with Ok (a, _) => ast_ok (a_ast a) /\ orig_ok (a_orig a) | _ => True end.
+
+Lemma parse_stmts_ok fuel srclen : forall ps,
+  Forall tok_wf (p_toks ps) -> ast_ok (a_ast (p_air ps)) -> orig_ok (a_orig (p_air ps)) ->
+  parse_ok (fst (parse fuel srclen ps)).
+Proof.
+  induction fuel as [|fuel IH]; intros ps Hw Hast Horig; [exact I|].
+  cbn [parse].
+  destruct (p_toks ps) as [|t0 r0] eqn:Et.
+  { cbn. split; [apply lrev_Forall; exact Hast|exact Horig]. }
+  assert (Hw0 : tok_wf t0 /\ Forall tok_wf r0) by (inversion Hw; auto).
+  destruct Hw0 as [Hk0 Hr0].
+  (* a generic finisher for "statement parsed" *)
+  assert (FIN : forall sym1 line (x : res (stmt * pst)) t toks,
+            Forall tok_wf toks -> yields toks stmt_ok x ->
+            parse_ok (fst
+              match x with
+              | Ok (s, (toks2, tok_end2)) =>
+                  if line + 1 <? W
+                  then parse fuel srclen
+                         (mkParser toks2
+                            (mkAir (a_orig (p_air ps))
+                               (mkLine (wrap (p_count ps + 1)) s (toffs t)
+                                  (if tok_end2 <=? toffs t then tlen t else tok_end2 - toffs t) :: a_ast (p_air ps))
+                               (a_bps (p_air ps))) (line + 1) tok_end2 sym1 (p_count ps + 1))
+                  else (Err E_too_long (srclen - 1) 0, sym1)
+              | Err d a n => (Err d a n, sym1)
+              | Bad w => (Bad w, sym1)
+              end)).
+  { intros sym1 line x t toks Htoks Hy. destruct x as [[s [toks2 te2]]| |]; try exact I.
+    cbn [yields] in Hy. destruct Hy as [Hs Hsuf].
+    destruct (line + 1 <? W); [|exact I].
+    apply IH; cbn [p_toks p_air a_ast a_orig]; [eapply is_suffix_Forall; eassumption| |exact Horig].
+    constructor; [exact Hs|exact Hast]. }
+  destruct (tk t0) eqn:Ek0; cbv beta iota zeta; rewrite ?Ek0; cbv beta iota zeta; try exact I.
+  - (* label first *)
+    destruct (sym_get (p_sym ps) (ttext t0)); [exact I|].
+    destruct r0 as [|t r]; [exact I|].
+    assert (Hw1 : tok_wf t /\ Forall tok_wf r) by (inversion Hr0; auto). destruct Hw1 as [Hk Hr].
+    cbv beta iota zeta.
+    destruct (tk t) eqn:Ek; cbv beta iota zeta; try exact I.
+    + apply (FIN _ (p_line ps) _ t r Hr). apply (parse_instr_yields _ _ i (r, p_tok_end ps) srclen Hr).
+      unfold tok_wf in Hk. rewrite Ek in Hk. exact Hk.
+    + apply (FIN _ (p_line ps) _ t r Hr). apply (parse_trap_yields t1 (r, p_tok_end ps) srclen Hr).
+      unfold tok_wf in Hk. rewrite Ek in Hk. exact Hk.
+    + destruct d; try exact I.
+      pose proof (expect_lit_yields (Unsigned 16) (r, p_tok_end ps) srclen Hr) as K.
+      destruct (expect_lit _ _ _) as [[v [toks2 te2]]| |]; try exact I. cbn [yields fst] in K.
+      destruct (a_orig (p_air ps)); [exact I|].
+      apply IH; cbn [p_toks p_air a_ast a_orig]; [eapply is_suffix_Forall; [apply K|exact Hr]|exact Hast|apply K].
+    + apply (FIN _ (p_line ps) (Ok (SRawWord v, (r, p_tok_end ps))) t r Hr). cbn. split; [|apply is_suffix_refl].
+      unfold tok_wf in Hk. rewrite Ek in Hk. exact Hk.
+    + apply IH; cbn [p_toks p_air a_ast a_orig]; assumption.
+  - apply (FIN _ (p_line ps) _ t0 r0 Hr0). apply (parse_instr_yields _ _ i (r0, p_tok_end ps) srclen Hr0).
+    unfold tok_wf in Hk0. rewrite Ek0 in Hk0. exact Hk0.
+  - apply (FIN _ (p_line ps) _ t0 r0 Hr0). apply (parse_trap_yields t (r0, p_tok_end ps) srclen Hr0).
+    unfold tok_wf in Hk0. rewrite Ek0 in Hk0. exact Hk0.
+  - destruct d; try exact I.
+    pose proof (expect_lit_yields (Unsigned 16) (r0, p_tok_end ps) srclen Hr0) as K.
+    destruct (expect_lit _ _ _) as [[v [toks2 te2]]| |]; try exact I. cbn [yields fst] in K.
+    destruct (a_orig (p_air ps)); [exact I|].
+    apply IH; cbn [p_toks p_air a_ast a_orig]; [eapply is_suffix_Forall; [apply K|exact Hr0]|exact Hast|apply K].
+  - apply (FIN _ (p_line ps) (Ok (SRawWord v, (r0, p_tok_end ps))) t0 r0 Hr0). cbn. split; [|apply is_suffix_refl].
+    unfold tok_wf in Hk0. rewrite Ek0 in Hk0. exact Hk0.
+  - apply IH; cbn [p_toks p_air a_ast a_orig]; assumption.
+Qed.
+
+
+(* ------------------------------------------------------------------ *)
+(** * Backpatching keeps operands; emitted words are 16-bit values *)
+
+Lemma backpatch_stmt_keeps sym s s' : stmt_ok s -> backpatch_stmt sym s = Ok s' -> stmt_ok s'.
+Proof.
+  intros Hs. destruct s; cbn [backpatch_stmt]; try (intros H; inversion H; subst; exact Hs);
+    match goal with |- context [fill sym ?l] => destruct (fill sym l); cbn [bind]; try discriminate end;
+    intros H; inversion H; subst; exact Hs.
+Qed.
+
+Lemma backpatch_keeps sym ls : forall ls', ast_ok ls -> backpatch sym ls = Ok ls' -> ast_ok ls'.
+Proof.
+  induction ls as [|ln r IH]; intros ls' H E; cbn [backpatch] in E.
+  - inversion E; constructor.
+  - inversion H as [|? ? Hl Hr]; subst.
+    destruct (backpatch_stmt sym (al_stmt ln)) as [s'| |] eqn:E1; cbn [bind] in E; try discriminate.
+    destruct (backpatch sym r) as [r'| |] eqn:E2; cbn [bind] in E; try discriminate.
+    inversion E; subst. constructor; [cbn; eapply backpatch_stmt_keeps; eassumption|apply IH; auto].
+Qed.
+
+Lemma lor_lt a b k : a < 2 ^ k -> b < 2 ^ k -> N.lor a b < 2 ^ k.
+Proof.
+  intros Ha Hb.
+  destruct (N.eq_dec (N.lor a b) 0) as [E|E]; [rewrite E; apply N.neq_0_lt_0; apply N.pow_nonzero; discriminate|].
+  assert (Hk : 0 < k).
+  { destruct (N.eq_dec k 0) as [->|]; [|lia]. cbn in Ha, Hb.
+    assert (a = 0) by lia. assert (b = 0) by lia. subst. exfalso. apply E. reflexivity. }
+  apply N.log2_lt_pow2; [lia|]. rewrite N.log2_lor.
+  apply N.max_lub_lt.
+  - destruct (N.eq_dec a 0) as [->|]; [cbn; exact Hk|apply N.log2_lt_pow2; [lia|exact Ha]].
+  - destruct (N.eq_dec b 0) as [->|]; [cbn; exact Hk|apply N.log2_lt_pow2; [lia|exact Hb]].
+Qed.
+
+Lemma shl_lt d k m : d < 2 ^ m -> m + k <= 16 -> shl d k < 2 ^ 16.
+Proof.
+  intros Hd Hk. unfold shl. rewrite N.shiftl_mul_pow2.
+  apply N.lt_le_trans with (2 ^ m * 2 ^ k).
+  - apply N.mul_lt_mono_pos_r; [apply N.neq_0_lt_0; apply N.pow_nonzero; discriminate|exact Hd].
+  - rewrite <- N.pow_add_r. apply N.pow_le_mono_r; [discriminate|exact Hk].
+Qed.
+
+Lemma land_mask_lt v n : N.land v (N.ones n) < 2 ^ n.
+Proof. rewrite N.land_ones. apply N.mod_lt. apply N.pow_nonzero. discriminate. Qed.
+
+Lemma imm_bits_lt x : ior_ok x -> imm_bits x < 2 ^ 16.
+Proof.
+  destruct x as [r|v]; cbn [ior_ok imm_bits]; intros H.
+  - change (2 ^ 16) with 65536. lia.
+  - apply lor_lt; [|reflexivity]. change 31 with (N.ones 5).
+    eapply N.lt_le_trans; [apply land_mask_lt|]. apply N.pow_le_mono_r; [discriminate|lia].
+Qed.
+
+Lemma encode_with_lt s o : stmt_ok s -> field_bound s o -> encode_with s o < W.
+Proof.
+  intros Hok Hb. change W with (2 ^ 16).
+  assert (R3 : forall d, d < 8 -> d < 2 ^ 3) by (intros; exact H).
+  assert (O6 : forall off, N.land off 63 < 2 ^ 16).
+  { intros off. change 63 with (N.ones 6). eapply N.lt_le_trans; [apply land_mask_lt|].
+    apply N.pow_le_mono_r; [discriminate|lia]. }
+  assert (FB : forall k, k <= 16 -> o < 2 ^ k -> o < 2 ^ 16).
+  { intros k Hk Ho. eapply N.lt_le_trans; [exact Ho|]. apply N.pow_le_mono_r; [discriminate|exact Hk]. }
+  unfold field_bound in Hb.
+  destruct s as [d a x|d a x|f l|r|l|r|d l|d l|d a off|d l|d a| | |r l|r l|r b off|r|r|l| |v|v];
+    cbn [pcrel_of] in Hb; cbn [stmt_ok] in Hok; cbn [encode_with]; unfold orl;
+    try (destruct x as [rr|vv]; destruct Hok as (? & ? & ?));
+    repeat apply lor_lt;
+    try reflexivity;
+    try (apply (shl_lt _ _ 3); [apply R3; tauto|lia]);
+    try (apply imm_bits_lt; cbn; assumption);
+    try apply O6;
+    try (eapply FB; [|exact Hb]; lia);
+    try (change 31 with (N.ones 5); eapply N.lt_le_trans; [apply land_mask_lt|apply N.pow_le_mono_r; [discriminate|lia]]);
+    try (change (2 ^ 16) with 65536; lia).
+  all: try (apply (shl_lt _ _ 3); [apply R3; first [exact Hok|tauto]|lia]).
+Qed.
+
+Lemma emit_lt ln w : stmt_ok (al_stmt ln) -> emit ln = Ok w -> w < W.
+Proof.
+  intros Hok H. destruct (emit_decode ln w Hok H) as (o & Hb & -> & _). apply encode_with_lt; assumption.
+Qed.
+
+Lemma emit_all_lt ls : forall ws, ast_ok ls -> emit_all ls = Ok ws -> Forall (fun w => w < W) ws.
+Proof.
+  induction ls as [|ln r IH]; intros ws H E; cbn [emit_all] in E.
+  - inversion E; constructor.
+  - inversion H as [|? ? Hl Hr]; subst.
+    destruct (emit ln) as [w| |] eqn:E1; cbn [bind] in E; try discriminate.
+    destruct (emit_all r) as [ws'| |] eqn:E2; cbn [bind] in E; try discriminate.
+    inversion E; subst. constructor; [eapply emit_lt; eassumption|apply IH; auto].
+Qed.
+
+(* ------------------------------------------------------------------ *)
+(** * Whole programs *)
+
+(** Every statement of an assembled program has well-formed operands... *)
+Theorem assemble_air_ok feat sym0 src a sym1 :
+  assemble_air feat sym0 src = (Ok a, sym1) -> ast_ok (a_ast a) /\ orig_ok (a_orig a).
+Proof.
+  unfold assemble_air.
+  pose proof (preprocess_wf feat (S (length src)) src 0 [] (Forall_nil _)) as Hpre.
+  destruct (preprocess feat (S (length src)) src 0 []) as [toks| |]; try discriminate.
+  cbn [all_wf] in Hpre.
+  pose proof (parse_stmts_ok (S (length toks)) (bytes src)
+                (mkParser toks (mkAir None [] []) 1 0 sym0 0) Hpre (Forall_nil _) I) as Hp.
+  destruct (parse _ _ _) as [r s1]. cbn [fst] in Hp.
+  destruct r as [[a0 s2]| |]; try discriminate. cbn [parse_ok] in Hp. destruct Hp as [Hp Ho].
+  destruct (backpatch s1 (a_ast a0)) as [ast'| |] eqn:Eb; try discriminate.
+  intros H. inversion H; subst. cbn [a_ast a_orig]. split; [eapply backpatch_keeps; eassumption|exact Ho].
+Qed.
+
+(** ... so the image is, word for word, the ISA encoding of the statements: the i-th word decodes to
+    the i-th statement (with its PC-relative field produced by [bit_offs]), and is a 16-bit value. *)
+Theorem assemble_image feat sym0 src im sym1 :
+  assemble feat sym0 src = (Ok im, sym1) ->
+  exists a, assemble_air feat sym0 src = (Ok a, sym1) /\
+    i_orig im = a_orig a /\ i_bps im = a_bps a /\ ast_ok (a_ast a) /\ orig_ok (i_orig im) /\
+    Forall (fun w => w < W) (i_words im) /\
+    Forall2 (fun ln w => exists o, field_bound (al_stmt ln) o /\ w = encode_with (al_stmt ln) o /\
+                                   decode w = instr_of (al_stmt ln) o /\
+                                   match pcrel_of (al_stmt ln) with
+                                   | Some (l, k) => bit_offs (al_line ln) l k = Ok o
+                                   | None => True
+                                   end)
+            (a_ast a) (i_words im).
+Proof.
+  unfold assemble. destruct (assemble_air feat sym0 src) as [r s1] eqn:E.
+  destruct r as [a| |]; try discriminate.
+  pose proof (assemble_air_ok _ _ _ _ _ E) as [Hok Horig].
+  destruct (emit_all (a_ast a)) as [ws| |] eqn:Ee; try discriminate.
+  intros H. inversion H; subst. exists a. cbn [i_orig i_bps i_words].
+  repeat split; try assumption.
+  - eapply emit_all_lt; eassumption.
+  - clear E H. revert ws Ee. induction (a_ast a) as [|ln r IH]; intros ws Ee; cbn [emit_all] in Ee.
+    + inversion Ee; constructor.
+    + inversion Hok as [|? ? Hl Hr]; subst.
+      destruct (emit ln) as [w| |] eqn:E1; cbn [bind] in Ee; try discriminate.
+      destruct (emit_all r) as [ws'| |] eqn:E2; cbn [bind] in Ee; try discriminate.
+      inversion Ee; subst. constructor; [apply emit_decode; assumption|apply IH; auto].
 Qed.
